@@ -46,6 +46,23 @@ def hashRun : P String := do
   let distinct := (t.data.map (·.1)).eraseDups.length
   pure (" ".intercalate outs ++ " | " ++ " ".intercalate keys ++ " | " ++ toString distinct ++ " " ++ bstr t.flag)
 
+/-- nodes.run cacheOn sens n (x T)… → one token per node of a diffusion model's node loop
+    (`SinglePhaseModel._getFluxes` / `computeMobility`: retrieve, else evaluate the thermodynamics and add), starting
+    from an empty table: `M` = the thermodynamics is evaluated at this node, `H<j>` = the value computed at node j is reused -/
+def nodesRun : P String := do
+  let on ← bool; let sens ← nat
+  let nodes ← lst (do let x ← flts; let T ← flt; pure (x, T))
+  let cfg : Cfg := Cfg.fixed
+  let key := fun (s : Nat) (x : List Float) (T : Float) => keyCast 64 s x T
+  let t0 : Table (List Int) Nat := step cfg key (step cfg key init (.setSens sens)) (.enable on)
+  let rec go (t : Table (List Int) Nat) (i : Nat) (ns : List (List Float × Float)) (outs : List String) : List String :=
+    match ns with
+    | [] => outs.reverse
+    | (x, T) :: r =>
+      let q := cachedQuery cfg key (fun _ _ => i) t x T
+      go q.2 (i + 1) r ((if q.1 = i then "M" else s!"H{q.1}") :: outs)
+  pure (" ".intercalate (go t0 0 nodes []))
+
 end hash
 
 /-! ### broadcasting -/
@@ -230,6 +247,7 @@ end cs
 def handle (verb : String) : Option (P String) :=
   match verb with
   | "hash.run" => some hashRun
+  | "nodes.run" => some nodesRun
   | "bc.xt" => some bcXT
   | "bc.tg" => some bcTG
   | "bc.x" => some bcX
